@@ -553,6 +553,23 @@ func TestVerifC18(t *testing.T) {
 		}
 		c18IDs, c18Ghosts = ids, ghosts
 	}
+	// every letter of the alphabet in ids that are defined in one letter case and referenced in
+	// another (graphs on <= 2 jobs): case folding is per letter
+	{
+		ids, ghosts := c18IDs, c18Ghosts
+		for l := 'a'; l <= 'z'; l++ {
+			lo, up := string(l), strings.ToUpper(string(l))
+			c18IDs, c18Ghosts = []string{up + "_" + lo, "_" + lo + up, up + up, lo + lo + "_", "_" + up}, []string{"ghost" + up, lo + "ghost"}
+			for n := 1; n <= 2; n++ {
+				c18Enumerate(n, true, true, func(idx int64, c *c18Case) bool {
+					c.Desc = "letter-" + lo + " " + c.Desc
+					c.IDs = c18IDs
+					return check(idx+(3+int64(l-'a'))<<40, c)
+				})
+			}
+		}
+		c18IDs, c18Ghosts = ids, ghosts
+	}
 
 	// end-to-end slice: every graph on <= 3 jobs through Linter.Lint (YAML text, real parser,
 	// all rules); map order canonical.
